@@ -160,6 +160,7 @@ func main() {
 	}
 
 	all := map[string]string{}
+	var pkgs []*rewrite.Pkg
 	for _, pk := range []string{"concpkg", "concpkgb"} {
 		p, err := rewrite.Load(filepath.Join(*work, pk))
 		if err != nil {
@@ -174,11 +175,10 @@ func main() {
 		for n, s := range sk {
 			all[n] = s
 		}
-		if err := p.RewriteTo(filepath.Join(*work, "vs", pk)); err != nil {
-			fmt.Fprintf(os.Stderr, "genconc: rewriting onto vsched: %v\n", err)
-			os.Exit(5)
-		}
+		pkgs = append(pkgs, p)
 	}
+	// the facts are written before the rewriting is attempted: T4 must speak about the code emitted now
+	// even when that code cannot be mapped onto the scheduler
 	var txt, ln strings.Builder
 	ln.WriteString("/-\nGENERATED by harness/cmd/genconc on every run of ./check C19 / C20 (tie T4): the channel-operation\n" +
 		"skeletons of the functions the real goderive emits NOW for the fixed package using every concurrent\n" +
@@ -199,6 +199,12 @@ func main() {
 		old, _ := os.ReadFile(*lean)
 		if string(old) != ln.String() {
 			write(*lean, ln.String())
+		}
+	}
+	for i, pk := range []string{"concpkg", "concpkgb"} {
+		if err := pkgs[i].RewriteTo(filepath.Join(*work, "vs", pk)); err != nil {
+			fmt.Fprintf(os.Stderr, "genconc: rewriting onto vsched: %v\n", err)
+			os.Exit(5)
 		}
 	}
 	write(filepath.Join(*work, "cmd", "vsrun", "main.go"), vsMain)
